@@ -5,7 +5,10 @@ package main
 import (
 	"encoding/json"
 	"fmt"
+	"io"
 	"os"
+	"os/exec"
+	"path/filepath"
 	"strconv"
 	"strings"
 
@@ -34,6 +37,12 @@ func main() {
 		os.Exit(2)
 	}
 	mode, id, arg := os.Args[1], os.Args[2], os.Args[3]
+	if mode == "run" {
+		os.Exit(supervise(id, arg))
+	}
+	if mode == "run-inner" {
+		mode = "run"
+	}
 	root := os.Getenv("VERIF_ROOT_OUT") // self-test runs redirect evidence/replays away from /verif
 	if root == "" {
 		root = os.Getenv("VERIF_ROOT")
@@ -61,6 +70,9 @@ func main() {
 	r := mon.NewRun(id, tier, seed, root)
 	r.Rule = p.Rule
 	c := &props.Ctx{R: r, Thorough: tier == "thorough", Seed: seed, RNG: gen.New(uint64(seed)), Workers: props.DefaultWorkers(), Env: envMap()}
+	if w, err := strconv.Atoi(os.Getenv("VERIF_WORKERS")); err == nil && w > 0 {
+		c.Workers = w
+	}
 	switch mode {
 	case "run":
 		if tier != "quick" && tier != "thorough" {
@@ -93,3 +105,83 @@ func main() {
 	}
 	os.Exit(r.Finish())
 }
+
+// supervise runs the monitor in a child process. A monitor killed by a process-fatal error of the
+// code under test (Go exits with status 2 for "fatal error: concurrent map writes", checkptr, stack
+// overflow …) must not be mistaken for "inconclusive": the run is repeated with one worker; if that
+// completes, its verdict stands (the crash needed concurrency: C11's business, noted); if it dies
+// again with a frame of the module under test on the stack, that is a violation of this property
+// (an operation did not return), with the crash log as the replay artefact.
+func supervise(id, tier string) int {
+	self, err := os.Executable()
+	if err != nil {
+		fmt.Printf("INCONCLUSIVE property=%s cannot locate own executable\n", id)
+		return 2
+	}
+	root := os.Getenv("VERIF_ROOT_OUT")
+	if root == "" {
+		root = os.Getenv("VERIF_ROOT")
+	}
+	if root == "" {
+		root = "/verif"
+	}
+	runInner := func(extraEnv ...string) (code int, verdict bool, crash string) {
+		cmd := exec.Command(self, "run-inner", id, tier)
+		cmd.Env = append(os.Environ(), extraEnv...)
+		var outBuf, errBuf tailBuffer
+		cmd.Stdout = io.MultiWriter(os.Stdout, &outBuf)
+		cmd.Stderr = io.MultiWriter(os.Stderr, &errBuf)
+		err := cmd.Run()
+		code = 0
+		if ee, ok := err.(*exec.ExitError); ok {
+			code = ee.ExitCode()
+		} else if err != nil {
+			code = 2
+		}
+		o := outBuf.String()
+		verdict = strings.Contains(o, "\nHELD property=") || strings.HasPrefix(o, "HELD property=") || strings.Contains(o, "VIOLATED property=") || strings.Contains(o, "INCONCLUSIVE property=")
+		return code, verdict, errBuf.String()
+	}
+	code, verdict, crash := runInner()
+	if verdict {
+		return code
+	}
+	moduleFrame := func(s string) bool {
+		return strings.Contains(s, "github.com/ja7ad/otp") && (strings.Contains(s, "fatal error:") || strings.Contains(s, "panic:") || strings.Contains(s, "unexpected signal") || strings.Contains(s, "checkptr"))
+	}
+	if !moduleFrame(crash) {
+		fmt.Printf("INCONCLUSIVE property=%s the monitor process ended without a verdict (exit %d) and the crash does not implicate the module under test\n", id, code)
+		return 2
+	}
+	fmt.Printf("NOTE property=%s the monitor process was killed by a process-fatal error inside the module under test; repeating with one worker\n", id)
+	code2, verdict2, crash2 := runInner("VERIF_WORKERS=1")
+	if verdict2 {
+		fmt.Printf("NOTE property=%s the parallel run died but the single-worker run completed: the fatal error needs concurrency (see C11)\n", id)
+		return code2
+	}
+	if !moduleFrame(crash2) {
+		fmt.Printf("INCONCLUSIVE property=%s the monitor process ended without a verdict twice (exit %d, %d)\n", id, code, code2)
+		return 2
+	}
+	os.MkdirAll(filepath.Join(root, "replays"), 0o755)
+	p := filepath.Join(root, "replays", fmt.Sprintf("%s-%s-crash.log", id, os.Getenv("VERIF_SEED")))
+	os.WriteFile(p, []byte(crash2), 0o644)
+	first := crash2
+	if i := strings.Index(first, "\n\n"); i > 0 {
+		first = first[:i]
+	}
+	fmt.Printf("VIOLATION property=%s replay=%s\n  signature: %s|process-fatal|sequential|\n  what: an operation of the module under test ends the process with a fatal error even when called sequentially\n  observed: %s\n", id, p, id, first)
+	return 1
+}
+
+// tailBuffer keeps the last 256 KiB written to it.
+type tailBuffer struct{ b []byte }
+
+func (t *tailBuffer) Write(p []byte) (int, error) {
+	t.b = append(t.b, p...)
+	if len(t.b) > 512<<10 {
+		t.b = append([]byte(nil), t.b[len(t.b)-(256<<10):]...)
+	}
+	return len(p), nil
+}
+func (t *tailBuffer) String() string { return string(t.b) }
